@@ -1227,10 +1227,76 @@ def o_after_many(case, T):
     T.cls("fill_%d" % case["n_fill"])
 
 
+# ----------------------------------------------------------------------------- empty geometries
+EMPTY_KINDS = ["Point", "LineString", "LinearRing", "Polygon", "MultiPoint", "MultiLineString", "MultiPolygon", "GeometryCollection"]
+
+
+def e_empty(tier):
+    """Empty geometries (what an intersection of disjoint shapes returns) are first-class values: every clause that
+    does not need a vertex still applies to them."""
+    pairs = [("4326", "3857"), ("3857", "4326"), ("3577", "4283"), ("32755", "4326"), ("sinu", "4326")]
+    for kind in EMPTY_KINDS + ["from_intersection", "collection_of_empties"]:
+        for a, b in pairs:
+            for res in (None, "auto", 0.5, 1000.0, "inf"):
+                for mode in ("to_crs", "to_crs_kw", "no_crs", "same_crs", "segmented"):
+                    if mode == "segmented" and not isinstance(res, float):
+                        continue
+                    yield {"kind": kind, "src": a, "dst": b, "res": res, "mode": mode}
+
+
+def o_empty(case, T):
+    import shapely.geometry as SG
+
+    from odc.geo.geom import Geometry
+
+    kind = case["kind"]
+    if kind == "from_intersection":
+        shp = SG.box(0, 0, 1, 1).intersection(SG.box(5, 5, 6, 6))
+    elif kind == "collection_of_empties":
+        shp = SG.GeometryCollection([SG.Polygon(), SG.LineString()])
+    else:
+        shp = getattr(SG, kind)()
+    require(shp.is_empty, "harness: %s not empty", kind)
+    res = case["res"]
+    res = float("inf") if res == "inf" else res
+    src = mk_crs_spec({"label": case["src"], "spell": "proj" if case["src"] == "sinu" else "int"})
+    dst = mk_crs_spec({"label": case["dst"], "spell": "proj" if case["dst"] == "sinu" else "int"})
+    mode = case["mode"]
+    T.cls("mode:" + mode)
+    T.cls("kind:" + kind)
+    T.nontrivial((kind, mode, str(case["res"])))
+    if mode == "no_crs":
+        g = Geometry(shp, None)
+        try:
+            out = g.to_crs(dst, resolution=res)
+        except ValueError:
+            return
+        raise Violation("to_crs on an empty %s without CRS returned %r (crs %r) instead of raising ValueError" % (kind, type(out).__name__, str(getattr(out, "crs", None))[:40]))
+    g = Geometry(shp, src)
+    if mode == "same_crs":
+        out = g.to_crs(src, resolution=res)
+        require(out is g, "to_crs to the geometry's own CRS returned a different object for an empty %s", kind)
+        return
+    if mode == "segmented":
+        out = g.segmented(res)
+        want_crs = src
+    elif mode == "to_crs_kw":
+        out = g.to_crs(dst, resolution=res)
+        want_crs = dst
+    else:
+        out = g.to_crs(dst, res) if res is not None else g.to_crs(dst)
+        want_crs = dst
+    require(isinstance(out, Geometry), "%s of an empty %s returned %r", mode, kind, type(out).__name__)
+    require(out.geom.geom_type == shp.geom_type, "%s changed the geometry type of an empty %s to %s", mode, shp.geom_type, out.geom.geom_type)
+    require(out.geom.is_empty and out.geom.area == 0 and out.geom.length == 0, "%s of an empty %s is not empty: %s", mode, kind, out.geom.wkt[:80])
+    require(out.crs == want_crs, "%s of an empty %s is tagged %r", mode, kind, str(out.crs)[:40])
+
+
 def build(chk: Check) -> None:
     chk.sub("to_crs_options", o_to_crs_options, strategy=s_to_crs(), n={"quick": 1200, "thorough": 40000}, budget_s={"quick": 40, "thorough": 200})
     chk.sub("to_crs_after_many_crs", o_after_many, strategy=s_after_many(), n={"quick": 40, "thorough": 1500}, budget_s={"quick": 40, "thorough": 200}, shrink=False)
     # budgets are per sub-check per shard; their sum bounds the tier's wall time (quick 90 s, thorough 15 min)
+    chk.sub("empty_geometries", o_empty, enum=e_empty, exhaustive_tiers=("quick", "thorough"))
     chk.sub("segmented_examples", o_segmented, enum=e_examples, exhaustive_tiers=("quick", "thorough"))
     chk.sub("segmented", o_segmented, cov={"quick": 1500, "thorough": 100000}, strategy=s_segmented(), n={"quick": 6000, "thorough": 250000}, budget_s={"quick": 26, "thorough": 310})
     chk.sub("to_crs", o_to_crs, strategy=s_to_crs(), n={"quick": 3000, "thorough": 120000}, budget_s={"quick": 15, "thorough": 150})
